@@ -18,7 +18,7 @@ type G struct {
 var (
 	tblNames  = []string{"t1", "t2", "users", "Posts", "a", "b", "order_items", "t_3_x", "order", "group"}
 	colNames  = []string{"id", "a", "b", "c", "a_b", "ab", "name", "val", "x_note", "Up_ID", "k", "n", "key", "from", "index"}
-	typeKeys  = []string{"integer", "int", "bigint", "text", "varchar(255)", "real", "boolean", "numeric", "decimal(10,2)", "datetime", "blob", "json", "uuid", "double", "date"}
+	typeKeys  = []string{"integer", "int", "bigint", "text", "varchar(255)", "real", "boolean", "numeric", "decimal(10,2)", "datetime", "blob", "json", "uuid", "double", "date", "udt:money", "udt:geo"}
 	strictTys = []string{"integer", "int", "real", "text", "blob"}
 	actions   = []string{"", "NO ACTION", "CASCADE", "SET NULL", "SET DEFAULT", "RESTRICT"}
 )
@@ -152,6 +152,13 @@ func hasStr(l []string, s string) bool {
 
 func (g *G) parts(t *Table, allowExpr bool) []Part {
 	cols := storedCols(t)
+	if allowExpr && g.r.Chance(1, 5) { // an index may also cover a generated column
+		for _, c := range t.Cols {
+			if c.Gen != nil {
+				cols = append(cols, c.Name)
+			}
+		}
+	}
 	n := 1 + g.r.Intn(2)
 	if n > len(cols) {
 		n = len(cols)
